@@ -204,15 +204,11 @@ def rcDo (s : CState) (op : RCOp String) : CState × String :=
   let r := rcStep s.rcBinary s.rc op
   ({ s with rc := r.1 }, showRc r.2)
 
-/-- parse a file text all the way down -/
+/-- parse a file text all the way down (`fileParse` of the model) -/
 def deepParse (text : Str) : Option (List (Str × List (Option Str × List (Str × List Str)))) :=
-  (fileDeserialize text).mapM (fun b =>
-    match blockDeserialize b.2 with
-    | .error _ => none
-    | .ok cats =>
-      (cats.mapM (fun (c : Option Str × Str) => match categoryDeserialize c.2 with
-        | .ok r => some (c.1, r.2)
-        | .error _ => none)).map (fun cs => (b.1, cs)))
+  match fileParse text with
+  | .ok bs => some (bs.map (fun b => (b.1, b.2.map (fun c => (c.1, c.2.2)))))
+  | .error _ => none
 
 def eqAssoc {κ α : Type} [BEq κ] (eqv : α → α → Bool) (a b : List (κ × α)) : Bool :=
   sameKeySet (a.map (·.1)) (b.map (·.1)) &&
@@ -224,6 +220,14 @@ def deepEq (a b : List (Str × List (Option Str × List (Str × List Str)))) : B
 
 def step' (s : CState) (line : String) : CState × String :=
   match words line with
+  | ["lazyget", t, b, c] =>
+    let c? : Option (Option Str) := if c == "~" then some none else (decStr c).map some
+    match decStr t, decStr b, c? with
+    | some t, some b, some c =>
+      (s, match lazyGet t b c with
+          | .ok cat => "ok " ++ showCat (.ok cat)
+          | .error e => showErr e)
+    | _, _, _ => (s, "bad-op")
   | ["eqfiles", ta, tb] =>
     match decStr ta, decStr tb with
     | some ta, some tb =>
